@@ -1979,6 +1979,16 @@ class Gen(object):
             hi = max(abs(a.lo), abs(a.hi))
             return self.bound(Nd(self.kw(f) + "(" + a.txt + ")", P_ATOM, 0.0, hi if f == "ABS" else hi * hi, a.isint))
         if c == 19:
+            if self.chance(0.35):
+                # negative base, integer exponent: the sign of the result is visible here
+                self.avoid("power_base_nonzero_by_construction")
+                b = self.r.randint(1, 9)
+                e = self.r.randint(0, 7)
+                v = float(-b) ** e
+                bt = "(-" + str(b) + ")" if self.chance(0.7) else "(-" + _fmt_num(b + 0.5) + ")"
+                if "." in bt:
+                    v = (-(b + 0.5)) ** e
+                return Nd(bt + self.sp("^") + str(e), P_POW, v, v)
             return self.power(d - 1)
         if c == 20:
             # VAL of clean numeric text
